@@ -312,12 +312,29 @@ var genericTupleKind = registerKind(300, reflect.TypeOf((*GenericTuple)(nil)))
 
 // Kind returns a number that is unique for each major kind of Value.
 func (t *GenericTuple) Kind() int {
-	if t.Count() == 1 {
-		if x, ok := t.Get(negateTag); ok {
-			return -x.Kind()
-		}
+	if x, ok := t.negated(); ok {
+		return -x.Kind()
 	}
 	return genericTupleKind
+}
+
+// negated returns x if t is the negation wrapper (negateTag: x). A wrapper
+// around another wrapper is an ordinary tuple: negating its kind twice would
+// make it claim the kind of the innermost value.
+func (t *GenericTuple) negated() (Value, bool) {
+	if t.Count() != 1 {
+		return nil, false
+	}
+	x, ok := t.Get(negateTag)
+	if !ok {
+		return nil, false
+	}
+	if u, is := x.(*GenericTuple); is {
+		if _, nested := u.negated(); nested {
+			return nil, false
+		}
+	}
+	return x, true
 }
 
 // Bool returns true iff the tuple has attributes.
@@ -331,17 +348,10 @@ func (t *GenericTuple) Less(v Value) bool {
 	if t.Kind() != v.Kind() {
 		return t.Kind() < v.Kind()
 	}
-	if t.Count() == 1 {
-		if x, ok := t.Get(negateTag); ok {
-			u := v.(Tuple)
-			if u.Count() != 1 {
-				panic(negateTag + " kind not single-attr tuple")
-			}
-			if y, ok := v.(Tuple).Get(negateTag); ok {
-				return y.Less(x)
-			}
-			panic(negateTag + " kind missing " + negateTag + " attr")
-		}
+	if x, ok := t.negated(); ok {
+		// Only another wrapper has the same (negative) kind.
+		y, _ := v.(*GenericTuple).negated()
+		return y.Less(x)
 	}
 
 	x := v.(*GenericTuple)
